@@ -32,9 +32,9 @@ class C13Machine(RuleBasedStateMachine):
         super().__init__()
         self.ex = None
 
-    @initialize(npre=st.integers(1, 3), mode=st.sampled_from([0, 0, 1, 2, 3, 5, 7]))
-    def start(self, npre, mode):
-        self.ex = wasifs.FsExecutor(npreopen=npre)
+    @initialize(npre=st.integers(1, 3), mode=st.sampled_from([0, 0, 1, 2, 3, 5, 7]), variant=st.just('default'))
+    def start(self, npre, mode, variant):
+        self.ex = wasifs.FsExecutor(npreopen=npre, variant=variant)
         wasihyp.LAST['npreopen'] = npre
         self.ex.set_edge(mode)
 
